@@ -13,7 +13,8 @@ EXPLANATION = (
     "decimal-literal conversion has no error exit and yields INTEGER/LONG/DOUBLE; hex/octal yield "
     "INTEGER/LONG or Overflow; fraction literals yield SINGLE or (with #) DOUBLE; negating a "
     "literal is guarded at MIN_INTEGER / MIN_LONG, and (R5, interval dataflow) every integer literal "
-    "built by arithmetic in the parser stays inside the range of its literal type. (R6) a unary operator is pushed down the whole left spine of the chain it precedes; (R7) the parser never narrows an f64 to f32, so a SINGLE literal is rounded once, from its text; (R8) the operand of a unary or keyword operator is parsed as a whole expression also when it starts with `(` (the parenthesis-only parser is used by the list of primaries only; shared with C09.R14).")
+    "built by arithmetic in the parser stays inside the range of its literal type. (R6) a unary operator is pushed down the whole left spine of the chain it precedes; (R7) the parser never narrows an f64 to f32, so a SINGLE literal is rounded once, from its text; (R8) the operand of a unary or keyword operator is parsed as a whole expression also when it starts with `(` (the parenthesis-only parser is used by the list of primaries only; shared with C09.R14)."
+    " (R9) a literal whose text spells a number beyond the range of its type is an error: the parser tests the parsed float with is_finite (shared with C06.R14); the Overflow exit of the decimal converter is accepted only on the not-finite side of that test.")
 NOT_DECIDED = [
     "that the binary rotation groups chains of four or more operators correctly (the unary rotation is decided on two-level chains, C10.R6)",
     "the numeric thresholds and the exact value a literal denotes (value-level)",
@@ -266,6 +267,23 @@ def _float_parse_total(eng, t, args):
     return None
 
 
+def _overflow_only_when_not_finite(fn):
+    body = fn.body
+    sites = [b for b, blk in enumerate(body.blocks) if not blk.get("c") for st in blk["s"]
+             if st["k"] == "assign" and st["r"].get("k") == "agg" and st["r"].get("a") == "adt"
+             and st["r"]["adt"].endswith("ParserError") and st["r"]["variant"] == "Overflow"]
+    if not sites:
+        return False
+    false_targets = []
+    for cb, t in body.calls():
+        if (t.get("cpath") or "").split("::")[-1] != "is_finite":
+            continue
+        nxt = body.term(t["t"])
+        if nxt["k"] == "switch" and mir.op_place(nxt["o"]) is not None and mir.op_place(nxt["o"])[0] == t["d"][0]:
+            false_targets += [tg for v, tg in nxt["ts"] if v == 0]
+    return bool(false_targets) and all(any(body.dominates(ft, b) for ft in false_targets) for b in sites)
+
+
 def r4_decimal_total(ctx, eng, rule="C10.R4"):
     prog = ctx.prog
     eng = tf.Engine(prog, intrinsics=_float_parse_total)
@@ -276,8 +294,12 @@ def r4_decimal_total(ctx, eng, rule="C10.R4"):
     shapes = _literal_shapes(eng, dec, (tf.TOP,))
     oks = sorted(s for s in shapes if s.startswith("Ok"))
     errs = sorted(s for s in shapes if s.startswith("Err"))
+    # the one error a run of digits may end in: it spells no finite DOUBLE (a 400-digit number parses as
+    # infinity).  Every construction of that error lies on the `not finite` side of an is_finite test
+    if "Err(Overflow)" in errs and _overflow_only_when_not_finite(dec):
+        errs = [e for e in errs if e != "Err(Overflow)"]
     ctx.decide(not errs, rule, rule + ":process_dec:no-error-exit", dec.loc,
-               "every path yields a literal",
+               "every path yields a literal (or Overflow for digits beyond the DOUBLE range)",
                "process_dec can return %s: a run of decimal digits is rejected as a syntax error "
                "instead of denoting a DOUBLE (`decimal: INTEGER, LONG, else DOUBLE`)" % errs)
     ctx.decide(oks == ["Ok(DoubleLiteral)", "Ok(IntegerLiteral)", "Ok(LongLiteral)"], rule,
@@ -386,5 +408,7 @@ def run(ctx):
     r7_no_double_rounding(ctx)
     from . import c09
     c09.r14_parenthesis_is_only_a_primary(ctx, "C10.R8")
+    # a literal whose text spells a number beyond the range of its type is an error, not an infinity
+    c06.r14_floats_from_outside_are_finite(ctx, "C10.R9", crate="rusty_parser", module="::expr::", floor=2)
     if eng.imprecise:
         ctx.notes.append("abstract interpreter imprecision: %s" % eng.imprecise[:5])
